@@ -171,11 +171,13 @@ def r_configs(tier):
                 cf(3, -1, 3, 100, "E0", "args"),
                 cf("I3", 2, True, 100, "E0", "tiny")]                 # cache ignored for INDEFINITE
     else:
-        for loops in (2, 3, -1):
-            for cache in (True, 2, 3):
-                out.append(cf(2, loops, cache, 100 if loops != 3 else "DYN", "E0" if cache != 3 else "Arel", "small"))
+        for loops in (2, -1):
+            for cache in (True, 2):
+                out.append(cf(2, loops, cache, 100, "E0", "small"))
             for cache, prof in ((True, "tiny"), (3, "dur"), (4, "args"), (True, "size"), (3, "pad")):
                 out.append(cf(3, loops, cache, 100, "E0", prof))
+        out.append(cf(2, 3, 3, "DYN", "Arel", "small"))
+        out.append(cf(3, 3, True, "DYN", "E0", "tiny"))
         out.append(cf(2, 2, 1, 100, "E0", "wide"))                      # disabled by cache < n
         out.append(cf(3, 2, 2, 100, "E0", "small"))                     # disabled by cache < n
         out.append(cf(4, 2, True, 100, "E0", "dur"))
@@ -225,6 +227,7 @@ def image_world(style):
         _world["tty"] = world.setup(IDENT[style], *T1, cell=CELL)
         _world["style"] = style
     set_term(_world["tty"], T1)
+    _world["tty"].ncalls = 0          # the livelock guard of VTty counts per build, not per process
     return _world["tty"]
 
 
@@ -383,15 +386,14 @@ def i_configs(tier):
         return [cf("block", "1.1", True, 2, "A"), cf("block", "1.1", 3, -1, "D", "fixed-terminal"),
                 cf("kitty", "1.1+L", True, 2, "D", "fixed-terminal"), cf("iterm2", "1.1+W", 4, -1, "A", "fixed-terminal")]
     out = [cf("block", "1.1", True, 2, "A", "full"), cf("block", "1.1", True, -1, "D", "full"),
-           cf("block", "1.1", 3, 3, "A", "full"), cf("kitty", "1.1+L", True, 2, "D", "full"),
-           cf("iterm2", "1.1+W", True, 2, "A", "full")]
+           cf("kitty", "1.1+L", True, 2, "D", "full"), cf("iterm2", "1.1+W", True, 2, "A", "full")]
     for style, specs in (("block", ["1.1"]), ("kitty", ["1.1+L", "1.1+W"]), ("iterm2", ["1.1+L", "1.1+W"])):
         for spec in specs:
-            for cached, repeat in ((True, 2), (True, -1), (3, 3), (4, 2), (2, 2), (True, 1)):
-                for size0 in ("A", "D"):
-                    if size0 == "D" and cached in (4, 2):
-                        continue
-                    out.append(cf(style, spec, cached, repeat, size0))
+            for cached, repeat, size0 in ((True, 2, "A"), (True, -1, "D"), (3, 3, "A"), (4, 2, "D"), (2, 2, "A"),
+                                          (True, 1, "A")):
+                if (cached, repeat) in ((2, 2), (True, 1)) and spec.endswith("+W") and style == "kitty":
+                    continue
+                out.append(cf(style, spec, cached, repeat, size0))
     return out
 
 
